@@ -204,17 +204,50 @@ def _parity_truth(v, p):
     return None
 
 
+def _parity_eval(outs, p):
+    """(term, truth of the result) when the parity term equals p, over all traces: a trace that branched on the truth of the
+    parity term is consistent with p when it assumed bool(p).  None = the result is not a function of one parity term."""
+    picked = []
+    for o in outs:
+        if o.kind != 'return' or o.imprecise:
+            return None
+        term = None
+        consistent = True
+        for (text, alt, subj) in o.notes:
+            t = _parity_term(subj) if isinstance(subj, Atom) else None
+            if t is None:
+                return None         # the trace depends on something other than the parity
+            term = t
+            if bool(alt) != bool(p):
+                consistent = False
+        if consistent:
+            picked.append((o, term))
+    if len(picked) != 1:
+        return None
+    o, term = picked[0]
+    v = o.value
+    if isinstance(v, Const) and isinstance(v.value, (bool, int)) and term is not None:
+        return term, bool(v.value)
+    r = _parity_truth(v, p)
+    if r is not None and term is not None and r[0] != term:
+        return None
+    return r
+
+
 def _r3(ctx):
     res = ctx['res']
     for tag in ('int', 'float', 'bool'):
         ev = outcomes(ctx, 'ISEVEN', lambda tag=tag: [mkv(tag, 'x')])
         od = outcomes(ctx, 'ISODD', lambda tag=tag: [mkv(tag, 'x')])
-        ok = len(ev) == 1 and len(od) == 1 and ev[0].kind == od[0].kind == 'return'
+        if any(o.imprecise for o in ev + od):
+            res.ob('R3', 'ISEVEN/ISODD', {'value': tag}, True, 'undecided (unmodelled construct)')
+            continue
+        ok = bool(ev) and bool(od) and all(o.kind == 'return' for o in ev + od)
         detail = 'ISEVEN=%s ISODD=%s' % (H.describe(ev), H.describe(od))
         if ok:
             for p in (0, 1):
-                a = _parity_truth(ev[0].value, p)
-                b = _parity_truth(od[0].value, p)
+                a = _parity_eval(ev, p)
+                b = _parity_eval(od, p)
                 if a is None or b is None:
                     ok = False
                     detail += ' (result is not a function of one parity term)'
